@@ -2,26 +2,27 @@
 C20 — property theorems. Model: `HydroVerif/Model/C20.lean`; helper lemmas: `Lemmas/C20*.lean`.
 All statements are over an arbitrary ordered field `α` (so over ℚ and ℝ; with a floor function for the quantile part),
 for every size. Every model function named below is executed by `Drivers/C20.lean` and compared with the real code.
+Second part of the model (round 7): `HydroVerif/Model/C20X.lean`, lemmas `Lemmas/C20X.lean`.
 
 Clause of the property → theorems → what stays outside the theorems
 * lhs: exactly one point in each of the n equal strata of every parameter range (sizes 1.., 1..6 parameters, arbitrary finite ranges)
-    theorems: lhsColumn_one_point_per_stratum, lhsColumn_in_range, lhs_jitter_range, lhsColumns_one_point_per_stratum, lhs_one_point_per_stratum, lhs_broadcast
-    outside: np.random.permutation returns a permutation and uniform(low,high)=low+(high-low)r with r in [0,1) (hypotheses; checked on every recorded draw); IEEE rounding at stratum edges (oracle tolerance)
+    theorems: lhsColumn_one_point_per_stratum, lhsColumn_in_range, lhs_jitter_range, lhsColumns_one_point_per_stratum, lhs_one_point_per_stratum, lhs_broadcast, lhsUnit_one_point_per_stratum
+    outside: np.random.permutation returns a permutation and uniform(low,high)=low+(high-low)r with r in [0,1) (hypotheses; checked on every recorded draw); IEEE rounding at stratum edges (oracle tolerance; a sample can sit one rounding error across an edge, so no exact float statement exists); lhs_norm: norm.ppf and the Cholesky factor are external (applied by the harness to the model's probabilities)
 * lhs glue: pmax of length 1 broadcast, wrong length / pmax<=pmin / nsamples=0 rejected
     theorems: lhs_broadcast, lhs_rejects_length, lhs_rejects_empty_range, lhs_rejects_zero_samples
-    outside: int()/astype conversions of the arguments; error kinds compared as ok/err only
+    outside: int()/astype conversions of the arguments (exercised with integer bounds handed over as Python ints / int32 / int64 arrays); error kinds compared as ok/err only
 * ppos: strictly increasing, in (0,1), symmetric about 0.5, for all sizes and constants in [0,0.5]; constants outside rejected
-    theorems: ppos_accepts, ppos_rejects, ppos_strictly_increasing, ppos_in_unit_interval, ppos_symmetric
-    outside: nothing (Float instance compared bit-for-bit, exact-rational instance within 1e-14)
+    theorems: ppos_accepts, ppos_rejects, ppos_strictly_increasing, ppos_in_unit_interval, ppos_symmetric, pposR_exact, pposR_in_unit_interval, pposR_nondecreasing
+    outside: nothing: exact-field theorems (strict), plus for ANY monotone rounding fixing 0 and 1 after each operation the positions stay in [0,1] and never decrease (pposR_*); strictness under rounding is not claimed. Float instance compared bit-for-bit, exact-rational instance within 1e-14, exact rationals with 53-bit rounding (pposR rnd53) equal to numpy's doubles exactly
 * normal scores are a strictly increasing function of the data ranks (NaN-free vectors, with and without ties)
-    theorems: standardNormal_eq, rank_order_preserving, normal_scores_argument_in_unit_interval, normal_scores_increasing_in_rank, standardNormalSorted_increasing, standardNormal_rejects_nan, standardNormalSorted_rejects_nan
-    outside: norm.ppf is a parameter (hypothesis: strictly increasing on (0,1)); pandas rank is compared by result for average/min/max, methods first/dense are not modelled; standard_normal does not validate cst - the theorems assume cst in [0,0.5] as documented for ppos (outside it the positions leave (0,1) and ppf is NaN)
+    theorems: standardNormal_eq, rank_order_preserving, normal_scores_argument_in_unit_interval, normal_scores_increasing_in_rank, standardNormalSorted_increasing, standardNormal_rejects_nan, standardNormalSorted_rejects_nan, standardNormalX_std, rankDense_order_preserving, ranksFirst_order, normal_scores_increasing_in_any_rank, normal_scores_argument_cst_needed
+    outside: norm.ppf is a parameter (hypothesis: strictly increasing on (0,1)); pandas rank is compared by result for all five methods (average/min/max/first/dense, all modelled; float data on the Float instance, integer data of any magnitude on the exact-rational instance); standard_normal does not validate cst - the theorems assume cst in [0,0.5] as documented for ppos, normal_scores_argument_cst_needed shows the hypothesis is needed (cst=1: ppf(0)) and the real code is compared with the model at cst outside [0,0.5]
 * pareto_front flags a point dominated exactly when another point is strictly better in every non-missing coordinate
-    theorems: paretoFront_length, paretoFront_flag_iff, paretoFrontNd_iff
-    outside: Cython wrapper (astype float64, ascontiguousarray) exercised through C/Fortran/int inputs, not modelled; ±inf coordinates (inf-inf is NaN in C) are not values of the exact model
+    theorems: paretoFront_length, paretoFront_flag_iff, paretoFrontNd_iff, paretoFrontX_rounding_irrelevant, paretoFrontX_rnd53, paretoFrontX_of_finite, paretoFrontX_flag_iff, paretoFrontX_same_infinity_skipped, paretoFront_orientation_sign, paretoFrontWrap_sign
+    outside: Cython wrapper (astype float64, ascontiguousarray) exercised through C/Fortran/int inputs; np.int32(orientation) modelled for integer orientations only. IEEE arithmetic of the kernel: the trusted fact is that a double subtraction and the product with an integer orientation keep the sign of the exact result (hypotheses of paretoFrontX_rounding_irrelevant). ±inf coordinates are outside the property's quantifier: modelled (XVal), characterised (paretoFrontX_flag_iff: two equal infinities are skipped like a missing value) and compared with the real code, no oracle
 * the non-dominated set of complete data is never empty
-    theorems: paretoFront_exists_nondominated
-    outside: nothing (any orientation value, any number of points >= 1, columns >= 1)
+    theorems: paretoFront_exists_nondominated, paretoFront_no_columns_all_dominated
+    outside: nothing (any orientation value, any number of points >= 1, columns >= 1; paretoFront_no_columns_all_dominated shows that `columns >= 1` is needed, probed on the real code with (n, 0) arrays)
 * reversing the orientation equals negating the data
     theorems: paretoFront_orientation_neg
     outside: nothing; both sides are executed by the driver (ops pareto / paretoneg)
@@ -29,21 +30,25 @@ Clause of the property → theorems → what stays outside the theorems
     theorems: computePercentiles_levels, quantile_linear_interpolation, quantile_within_min_max, quantile_monotone, quantile_zero_one, percentile_within_min_max, percentile_monotone, boxStats_summary, boxStats_few_values, boxStats_ignores_nonfinite, boxStats_total
     outside: numpy's partition-based selection of order statistics is replaced by a sort (same values); pairwise summation of the mean (theorem: mean*count = sum exactly; Float within n*1e-13); the NaN row under 4 values is the code's rule, stated as boxStats_few_values
 * box-plot glue: coverage guards, levels outside [0,100]
-    theorems: boxplotCheck_iff, percentile_rejects_level, boxStats_rejects_whiskers_above_100, boxStatsBy_rejects_coverage, boxStatsBy_rejects_one_category, boxStatsBy_accepts
+    theorems: boxplotCheck_iff, percentile_rejects_level, boxStats_rejects_whiskers_above_100, boxStatsBy_rejects_coverage, boxStatsBy_rejects_one_category, boxStatsBy_accepts, boxStatsCols_column_alone, boxStatsCols_no_rows, boxStatsCols_accepts, boxStatsCols_rejects_coverage
     outside: DataFrame/Series conversion of the input (BoxplotError on non-numeric data) not modelled; one-decimal row labels are pandas/format glue: two levels printing to the same label is the known finding Boxplot.stats/by/percentile_label_collision
 * group-wise values equal those of each group taken alone (2+ categories of unequal size)
     theorems: groupBy_groups_are_buckets, groupBy_keys_increasing, boxStatsBy_group_alone, boxStatsBy_accepts
-    outside: pandas groupby/apply/pivot_table are external: the model scans the rows into buckets itself; category labels are integers in the model (strings are mapped by the harness)
+    outside: pandas groupby/apply/pivot_table are external: the model scans the rows into buckets itself; category labels are integers in the model (string and float labels, handed over as array / list / named Series, are mapped to their rank by the harness)
 * violin summaries are the sample statistics of the finite values of each column
     theorems: violinStats_summary, median_eq_quantile_half, violinStats_no_finite_value
     outside: pandas median/quantile compared by result (few ulp)
 * density profiles normalised to [0,1]
-    theorems: normalise_unit_range, violinGrid_profile, violinGrid_no_profile, violinSelect_keeps_all
-    outside: gaussian_kde is external (evaluated by the harness on the values the model selects); a flat kernel profile (all values equal) has no normalisation - hypothesis of normalise_unit_range; the 1e-6 jitter of the abscissae is an input (recorded numpy draws)
+    theorems: normalise_unit_range, violinGrid_profile, violinGrid_no_profile, violinSelect_keeps_all, normaliseR_exact, normaliseR_unit_range, violinNpts_range
+    outside: gaussian_kde is external (evaluated by the harness on the values the model selects); a flat kernel profile (all values equal) has no normalisation - hypothesis of normalise_unit_range; the 1e-6 jitter of the abscissae is an input (recorded numpy draws). Rounding: normaliseR_unit_range holds for any monotone rounding fixing 0 and 1 that keeps a positive difference positive, and the exact-rational model with 53-bit rounding gives kde_y bit for bit
+* summaries are those computed at construction whatever public methods are called afterwards, in any order, accepted or refused (Boxplot object)
+    theorems: boxRun_stats_unchanged, boxStep_rejected_iff, boxStep_rejected_state, boxRun_drawn_persists
+    outside: matplotlib: whether an exception escapes from draw (and whether elements were stored before) is an input of the model; Violin has no refusing method - its summaries are compared before/after draw, reset_items and item setters by the harness
 -/
 import HydroVerif.Lemmas.C20
 import HydroVerif.Lemmas.C20Quantile
 import HydroVerif.Lemmas.C20Group
+import HydroVerif.Lemmas.C20X
 
 set_option linter.unusedSectionVars false
 set_option linter.unusedVariables false
@@ -993,5 +998,404 @@ example : LhsInputsOK 2 [(0 : Rat)] [1] [[1, 0]] [[1 / 2, 0]] := by
   intro x hx
   simp only [List.mem_cons, List.not_mem_nil, or_false] at hx
   rcases hx with rfl | rfl <;> norm_num
+
+/-! ## round 7: the routes around the kernels (`Model/C20X.lean`) -/
+
+section field7
+variable {α : Type} [Field α] [LinearOrder α] [IsStrictOrderedRing α]
+
+/-! ### pareto front: roundings, ±inf, orientation values, zero columns -/
+
+/-- IEEE arithmetic inside the kernel is harmless: for ANY rounding that keeps the sign of what it rounds
+(true of a double subtraction - gradual underflow - and of the product with an integer orientation) the flags are
+those of the exact kernel -/
+theorem paretoFrontX_rounding_irrelevant (rnd : α → α) (hp : ∀ x, 0 < rnd x ↔ 0 < x) (hn : ∀ x, rnd x < 0 ↔ x < 0)
+    (o : α) (d : List (List (XVal α))) : paretoFrontX rnd o d = paretoFrontX id o d := by
+  unfold paretoFrontX
+  simp only [isDominatedAtX_rnd rnd hp hn]
+
+/-- the instance the driver executes on exact rationals - round-to-nearest-even to 53 significant bits after the
+subtraction and after the product - provably keeps signs, hence gives the flags of the exact kernel -/
+theorem paretoFrontX_rnd53 (o : Rat) (d : List (List (XVal Rat))) : paretoFrontX rnd53 o d = paretoFrontX id o d :=
+  paretoFrontX_rounding_irrelevant rnd53 (fun x => (rnd53_sign x).1) (fun x => (rnd53_sign x).2) o d
+
+/-- on NaN / finite data the kernel on doubles is the kernel of the exact model, so every pareto theorem above
+speaks about it -/
+theorem paretoFrontX_of_finite (o : α) (d : List (List (Option α))) :
+    paretoFrontX id o (d.map fun r => r.map xOfOpt) = paretoFront o d := by
+  unfold paretoFrontX paretoFront
+  simp only [List.length_map, isDominatedAtX_of_opt]
+
+/-- with ±inf coordinates: flag 1 exactly when another point is strictly better (on the extended line
+`-inf < finite < +inf`) in every coordinate whose difference is a number; a coordinate where both points hold the SAME
+infinity is skipped like a missing one (`inf - inf` is NaN) -/
+theorem paretoFrontX_flag_iff (o : α) (d : List (List (XVal α))) (i : Nat) (hi : i < d.length) :
+    ((paretoFrontX id o d)[i]? = some 1 ↔ XDominated o d i) ∧
+    ((paretoFrontX id o d)[i]? = some 0 ↔ ¬ XDominated o d i) := by
+  have hget : (paretoFrontX id o d)[i]? = some (if isDominatedAtX id o d i then 1 else 0) := by
+    unfold paretoFrontX
+    rw [List.getElem?_map, List.getElem?_range hi]
+    rfl
+  rw [hget, ← isDominatedAtX_iff]
+  cases isDominatedAtX id o d i <;> simp
+
+/-- why ±inf is kept out of the property's quantifier: two points sharing `+inf` in one coordinate are compared on the
+others alone, so one of them is flagged although it is not strictly worse in the shared coordinate -/
+theorem paretoFrontX_same_infinity_skipped (a b : α) (h : a < b) :
+    paretoFrontX id (1 : α) [[.pinf, .fin a], [.pinf, .fin b]] = [1, 0] ∧ ¬ XLt (XVal.pinf : XVal α) .pinf := by
+  refine ⟨?_, by simp [XLt]⟩
+  simp [paretoFrontX, isDominatedAtX, domByX, xdiffPos, coordOK, List.range_succ, h, h.le]
+
+/-- only the sign of the orientation is used: any positive value behaves as `+1`, any negative value as `-1` -/
+theorem paretoFront_orientation_sign (o : α) (d : List (List (Option α))) :
+    (0 < o → paretoFront o d = paretoFront 1 d) ∧ (o < 0 → paretoFront o d = paretoFront (-1) d) :=
+  ⟨fun ho => paretoFront_congr_domBy o 1 d (domBy_pos o ho),
+   fun ho => paretoFront_congr_domBy o (-1) d (domBy_neg_orientation o ho)⟩
+
+/-- the wrapper: an integer orientation reaches the kernel; 2-dimensional data are flagged by the sign of it -/
+theorem paretoFrontWrap_sign (o : Int) (d : List (List (Option α))) :
+    (0 < o → paretoFrontWrap 2 o d = .ok (paretoFront (1 : α) d)) ∧
+    (o < 0 → paretoFrontWrap 2 o d = .ok (paretoFront (-1 : α) d)) ∧
+    (∀ ndim, ndim ≠ 2 → paretoFrontWrap ndim o d = .error .ndim) := by
+  refine ⟨fun ho => ?_, fun ho => ?_, fun ndim hnd => ?_⟩
+  · have : (0 : α) < ((o : Int) : α) := by exact_mod_cast ho
+    simp only [paretoFrontWrap, paretoFrontNd, ne_eq, not_true_eq_false, if_false,
+      (paretoFront_orientation_sign ((o : Int) : α) d).1 this]
+  · have : ((o : Int) : α) < 0 := by exact_mod_cast ho
+    simp only [paretoFrontWrap, paretoFrontNd, ne_eq, not_true_eq_false, if_false,
+      (paretoFront_orientation_sign ((o : Int) : α) d).2 this]
+  · simp [paretoFrontWrap, paretoFrontNd, hnd]
+
+/-- the hypothesis `0 < ncol` of `paretoFront_exists_nondominated` is needed: two or more points without any
+coordinate are all flagged (every comparison is vacuous) -/
+theorem paretoFront_no_columns_all_dominated (o : α) (n : Nat) (hn : 2 ≤ n) :
+    paretoFront o (List.replicate n ([] : List (Option α))) = List.replicate n 1 := by
+  unfold paretoFront
+  simp only [List.length_replicate]
+  apply List.ext_getElem
+  · simp
+  · intro i h1 h2
+    simp only [List.length_map, List.length_range] at h1
+    simp only [List.getElem_map, List.getElem_range, List.getElem_replicate]
+    have : isDominatedAt o (List.replicate n ([] : List (Option α))) i = true := by
+      unfold isDominatedAt
+      simp only [List.getElem?_replicate, h1, if_true, List.length_replicate, List.any_eq_true, List.mem_range,
+        Bool.and_eq_true, bne_iff_ne, ne_eq]
+      by_cases hi0 : i = 0
+      · exact ⟨1, by omega, by omega, by simp [show 1 < n by omega, domBy]⟩
+      · exact ⟨0, by omega, by omega, by simp [show 0 < n by omega, domBy]⟩
+    rw [this]
+    rfl
+
+example : paretoFront (1 : Rat) [[], [], []] = [1, 1, 1] := paretoFront_no_columns_all_dominated (1 : Rat) 3 (by norm_num)
+example : paretoFrontX id (1 : Rat) [[.pinf, .fin 1], [.pinf, .fin 2], [.ninf, .fin 5], [.nan, .fin 0]] = [1, 0, 0, 1] := by
+  decide +kernel
+example : paretoFrontX rnd53 (1 : Rat) [[.fin (1 / 3), .fin 2], [.fin (2 / 3), .fin 3]] = [1, 0] := by decide +kernel
+/-- a rounding that is not the identity and keeps signs (the hypotheses of `paretoFrontX_rounding_irrelevant`) -/
+example : (∀ x : Rat, 0 < 2 * x ↔ 0 < x) ∧ (∀ x : Rat, 2 * x < 0 ↔ x < 0) :=
+  ⟨fun x => by constructor <;> intro h <;> linarith, fun x => by constructor <;> intro h <;> linarith⟩
+example : paretoFront (3 : Rat) [[some 1], [some 2]] = paretoFront (1 : Rat) [[some 1], [some 2]] :=
+  (paretoFront_orientation_sign (3 : Rat) _).1 (by norm_num)
+
+/-! ### plotting positions under rounding -/
+
+/-- without rounding `pposR` is `ppos` -/
+theorem pposR_exact (n : Nat) (cst : α) : pposR id n cst = ppos n cst := rfl
+
+/-- whatever the (monotone) rounding of the four operations, the computed positions stay inside `[0, 1]` -/
+theorem pposR_in_unit_interval (rnd : α → α) (hm : Monotone rnd) (hr0 : rnd 0 = 0) (hr1 : rnd 1 = 1)
+    (n : Nat) (cst : α) (h0 : 0 ≤ cst) (h1 : cst ≤ 1 / 2) (l : List α) (h : pposR rnd n cst = .ok l) :
+    l.length = n ∧ ∀ p ∈ l, 0 ≤ p ∧ p ≤ 1 := by
+  unfold pposR at h
+  rw [if_neg (by push Not; exact ⟨h0, h1⟩)] at h
+  injection h with h
+  subst h
+  refine ⟨by simp, ?_⟩
+  intro p hp
+  simp only [List.mem_map, List.mem_range] at hp
+  obtain ⟨i, hi, rfl⟩ := hp
+  have h2c : rnd (2 * cst) ≤ 1 := by
+    rw [← hr1]; exact hm (by linarith)
+  have hin : ((i + 1 : Nat) : α) ≤ (n : α) := by exact_mod_cast hi
+  have hi0 : (0 : α) ≤ (i : α) := Nat.cast_nonneg i
+  have hnum0 : 0 ≤ rnd (((i + 1 : Nat) : α) - cst) := by
+    rw [← hr0]; apply hm; push_cast; linarith
+  have hle : rnd (((i + 1 : Nat) : α) - cst) ≤ rnd (((n + 1 : Nat) : α) - rnd (2 * cst)) := by
+    apply hm; push_cast at hin ⊢; linarith
+  constructor
+  · rw [← hr0]; exact hm (div_nonneg hnum0 (le_trans hnum0 hle))
+  · rw [← hr1]; exact hm (div_le_one_of_le₀ hle (le_trans hnum0 hle))
+
+/-- ... and they never decrease with the index -/
+theorem pposR_nondecreasing (rnd : α → α) (hm : Monotone rnd) (hr0 : rnd 0 = 0) (hr1 : rnd 1 = 1)
+    (n : Nat) (cst : α) (h0 : 0 ≤ cst) (h1 : cst ≤ 1 / 2) (l : List α) (h : pposR rnd n cst = .ok l) :
+    l.Pairwise (· ≤ ·) := by
+  unfold pposR at h
+  rw [if_neg (by push Not; exact ⟨h0, h1⟩)] at h
+  injection h with h
+  subst h
+  rw [List.pairwise_map]
+  refine List.Pairwise.imp_of_mem ?_ List.pairwise_lt_range
+  intro a b ha hb hab
+  have hbn : b < n := List.mem_range.mp hb
+  have h2c : rnd (2 * cst) ≤ 1 := by
+    rw [← hr1]; exact hm (by linarith)
+  have hden : 0 ≤ rnd (((n + 1 : Nat) : α) - rnd (2 * cst)) := by
+    rw [← hr0]; apply hm
+    have : (0 : α) ≤ (n : α) := Nat.cast_nonneg n
+    push_cast; linarith
+  apply hm
+  apply div_le_div_of_nonneg_right _ hden
+  apply hm
+  have : ((a + 1 : Nat) : α) ≤ ((b + 1 : Nat) : α) := by exact_mod_cast Nat.succ_le_succ hab.le
+  linarith
+
+example : pposR rnd53 3 (3 / 10 : Rat) = .ok [7 / 34, 1 / 2, 27 / 34] → False := by decide +kernel
+example : (pposR rnd53 2 (1 / 4 : Rat)).toOption = some [3 / 10, 7 / 10] → False := by decide +kernel
+example : pposR rnd53 1 (1 / 2 : Rat) = .ok [1 / 2] := by decide +kernel
+/-- a monotone rounding that is not the identity and fixes 0 and 1 (the hypotheses of the two theorems above) -/
+example : Monotone (fun x : Rat => min x 1) ∧ min (0 : Rat) 1 = 0 ∧ min (1 : Rat) 1 = 1 :=
+  ⟨fun a b h => min_le_min_right 1 h, by norm_num, by norm_num⟩
+
+/-! ### density profile under rounding -/
+
+/-- without rounding `normaliseR` is `normalise` -/
+theorem normaliseR_exact (y : List α) : normaliseR id y = normalise y := rfl
+
+/-- "normalised to [0, 1]" survives floating point exactly: for any monotone rounding that fixes 0 and 1 and does not
+round a positive difference to 0 (true of IEEE subtraction), a profile that is not flat is mapped into `[0, 1]`
+and both ends are attained -/
+theorem normaliseR_unit_range (rnd : α → α) (hm : Monotone rnd) (hr0 : rnd 0 = 0) (hr1 : rnd 1 = 1)
+    (hpos : ∀ x, 0 < x → 0 < rnd x) (y : List α) (a b : α) (ha : a ∈ y) (hb : b ∈ y) (hab : a < b) :
+    ∃ l, normaliseR rnd y = some l ∧ l.length = y.length ∧ (∀ v ∈ l, 0 ≤ v ∧ v ≤ 1) ∧ (0 : α) ∈ l ∧ (1 : α) ∈ l := by
+  have hne : y ≠ [] := List.ne_nil_of_mem ha
+  obtain ⟨lo, hlo⟩ := minL_isSome hne
+  obtain ⟨hi, hhi⟩ := maxL_isSome hne
+  obtain ⟨hlom, hlole⟩ := minL_spec hlo
+  obtain ⟨him, hile⟩ := maxL_spec hhi
+  have hlt : lo < hi := lt_of_le_of_lt (hlole a ha) (lt_of_lt_of_le hab (hile b hb))
+  have hd : 0 < rnd (hi - lo) := hpos _ (sub_pos.mpr hlt)
+  refine ⟨y.map fun v => rnd (rnd (v - lo) / rnd (hi - lo)), ?_, by simp, ?_, ?_, ?_⟩
+  · simp [normaliseR, hlo, hhi]
+  · intro v hv
+    simp only [List.mem_map] at hv
+    obtain ⟨w, hw, rfl⟩ := hv
+    have h1 : 0 ≤ rnd (w - lo) := by rw [← hr0]; exact hm (sub_nonneg.mpr (hlole w hw))
+    have h2 : rnd (w - lo) ≤ rnd (hi - lo) := hm (by linarith [hile w hw])
+    constructor
+    · rw [← hr0]; exact hm (div_nonneg h1 hd.le)
+    · rw [← hr1]; exact hm ((div_le_one hd).mpr h2)
+  · simp only [List.mem_map]
+    exact ⟨lo, hlom, by simp [hr0]⟩
+  · simp only [List.mem_map]
+    exact ⟨hi, him, by rw [div_self hd.ne', hr1]⟩
+
+example : normaliseR rnd53 [(2 : Rat), 5, 3] = some [0, 1, 6004799503160661 / 18014398509481984] := by decide +kernel
+example : ∃ l, normaliseR (fun x : Rat => min x 1) [2, 5, 3] = some l ∧ l.length = 3 ∧ (∀ v ∈ l, 0 ≤ v ∧ v ≤ 1) ∧
+    (0 : Rat) ∈ l ∧ (1 : Rat) ∈ l :=
+  normaliseR_unit_range (fun x : Rat => min x 1) (fun a b h => min_le_min_right 1 h) (by norm_num) (by norm_num)
+    (fun x hx => lt_min hx one_pos) [2, 5, 3] 2 5 (by simp) (by simp) (by norm_num)
+
+/-! ### standard_normal: the plotting constant -/
+
+/-- `standard_normal` does not check `cst`; the hypothesis `cst ≤ 1/2` of the score theorems is needed: with
+`cst = 1` the smallest value of ANY sample is handed `ppf(0)` (minus infinity), outside `(0, 1)` -/
+theorem normal_scores_argument_cst_needed (n : Nat) : ¬ (0 < scoreArg n (1 : α) 0) := by
+  simp [scoreArg]
+
+/-- every `rank_method` of pandas: the three tie methods of `Model/C20.lean` are the `.std` case, so the theorems
+about `standardNormal` speak about `standardNormalX` as well -/
+theorem standardNormalX_std (m : RankMethod) (cst : α) (x : List (Option α)) :
+    standardNormalX (.std m) cst x = standardNormal m cst x := by
+  unfold standardNormalX standardNormal ranksOf
+  simp only [List.map_map]
+  rfl
+
+/-- `rank_method="dense"`: ranks follow the order of the data, ties share their rank, ranks lie in `1..n` -/
+theorem rankDense_order_preserving (xs : List α) (x y : α) (hx : x ∈ xs) (hy : y ∈ xs) :
+    (rankDense xs x < rankDense xs y ↔ x < y) ∧ 1 ≤ rankDense xs x ∧ rankDense xs x ≤ (xs.length : α) := by
+  refine ⟨⟨?_, rankDense_lt_of_lt xs hx⟩, rankDense_bounds xs hx⟩
+  intro h
+  by_contra hxy
+  rcases lt_or_eq_of_le (not_lt.mp hxy) with h' | h'
+  · exact absurd h (not_lt.mpr (rankDense_lt_of_lt xs hy h').le)
+  · subst h'; exact lt_irrefl _ h
+
+/-- `rank_method="first"`: a strictly larger value gets a strictly larger rank, equal values are ranked in the order
+they appear (so all ranks are different), and every rank lies in `1..n` -/
+theorem ranksFirst_order (xs : List α) (i j : Nat) (hi : i < xs.length) (hj : j < xs.length) :
+    ∃ ri rj, (ranksFirst xs)[i]? = some ri ∧ (ranksFirst xs)[j]? = some rj ∧
+      (xs[i] < xs[j] → ri < rj) ∧ (xs[i] = xs[j] → i < j → ri < rj) ∧ 1 ≤ ri ∧ ri ≤ (xs.length : α) := by
+  refine ⟨_, _, ranksFirst_getElem xs i hi, ranksFirst_getElem xs j hj, ?_, ?_, ?_, ?_⟩
+  · intro h
+    exact_mod_cast firstRank_lt_of_lt xs i j hi hj h
+  · intro h hij
+    exact_mod_cast firstRank_lt_of_tie xs i j hij hj h
+  · have : 1 ≤ cntLt xs xs[i] + cntEq (xs.take i) xs[i] + 1 := by omega
+    exact_mod_cast this
+  · exact_mod_cast firstRank_le_length xs i hi
+
+/-- whatever produced them, ranks between 1 and n are mapped to plotting positions inside (0, 1) and the scores are a
+strictly increasing function of them (this is the clause for `first` and `dense` too) -/
+theorem normal_scores_increasing_in_any_rank (ppf : α → α) (hppf : StrictMonoOn ppf (Set.Ioo 0 1))
+    (n : Nat) (cst : α) (h0 : 0 ≤ cst) (h1 : cst ≤ 1 / 2) (r s : α)
+    (hr : 1 ≤ r ∧ r ≤ (n : α)) (hs : 1 ≤ s ∧ s ≤ (n : α)) :
+    (ppf (scoreArg n cst (r - 1)) < ppf (scoreArg n cst (s - 1)) ↔ r < s) ∧
+    0 < scoreArg n cst (r - 1) ∧ scoreArg n cst (r - 1) < 1 := by
+  have hn : 0 < n := by
+    have : (0 : α) < (n : α) := by linarith [hr.1, hr.2]
+    exact_mod_cast this
+  have ur := scoreArg_mem_unit n hn cst h0 h1 (r := r - 1) (by linarith [hr.1]) (by linarith [hr.2])
+  have us := scoreArg_mem_unit n hn cst h0 h1 (r := s - 1) (by linarith [hs.1]) (by linarith [hs.2])
+  have hmono : StrictMono (scoreArg n cst) := fun a b h => scoreArg_lt n hn cst h1 h
+  refine ⟨?_, ur⟩
+  rw [hppf.lt_iff_lt (Set.mem_Ioo.mpr ur) (Set.mem_Ioo.mpr us), hmono.lt_iff_lt]
+  constructor <;> intro h <;> linarith
+
+example : ranksFirst [(3 : Rat), 1, 3, 2, 1] = [4, 1, 5, 3, 2] ∧ [(3 : Rat), 1, 3, 2, 1].map (rankDense [3, 1, 3, 2, 1]) = [3, 1, 3, 2, 1] := by
+  decide +kernel
+example : standardNormalX .first (0 : Rat) [some 3, some 1, some 3] = .ok ([1 / 2, 1 / 4, 3 / 4], [1, 0, 2]) := by decide +kernel
+
+/-! ### lhs_norm: the unit hypercube -/
+
+/-- `lhs_norm` draws its probabilities with `lhs(nsamples, [0]*nvars, [1]*nvars)`: for any permutations and unit draws
+every variable gets exactly one probability in each of the strata `[k/n, (k+1)/n)` -/
+theorem lhsUnit_one_point_per_stratum (n : Nat) (hn : 0 < n) (nvars : Nat) (perms : List (List Nat)) (rs : List (List α))
+    (hp : perms.length = nvars) (hr : rs.length = nvars) (hperm : ∀ p ∈ perms, p.Perm (List.range n))
+    (hdraw : ∀ r ∈ rs, r.length = n ∧ ∀ x ∈ r, 0 ≤ x ∧ x < 1) :
+    ∃ cols, lhsUnit n nvars perms rs = .ok cols ∧ cols.length = nvars ∧ ∀ c ∈ cols, c.length = n ∧
+      ∀ k, k < n → c.countP (fun x => decide ((k : α) / (n : α) ≤ x ∧ x < ((k : α) + 1) / (n : α))) = 1 := by
+  have hok := LhsInputsOK_replicate n nvars (0 : α) 1 zero_lt_one perms rs hp hr hperm hdraw
+  obtain ⟨cols, hc, hstr⟩ := lhs_one_point_per_stratum n hn _ _ perms rs hok
+  obtain ⟨hlen, hcols⟩ := OnePerStratum_replicate n nvars (0 : α) 1 cols hstr
+  refine ⟨cols, hc, hlen, ?_⟩
+  intro c hcm
+  obtain ⟨hl, hk⟩ := hcols c hcm
+  refine ⟨hl, ?_⟩
+  intro k hkn
+  have := hk k hkn
+  simpa only [zero_add, sub_zero, mul_one_div] using this
+
+example : lhsUnit 2 2 [[1, 0], [0, 1]] [[(1 / 2 : Rat), 0], [0, 1 / 4]] = .ok [[3 / 4, 0], [0, 5 / 8]] := by decide +kernel
+
+end field7
+
+section floor7
+variable {α : Type} [Field α] [LinearOrder α] [IsStrictOrderedRing α] [FloorRing α]
+
+/-! ### Boxplot(df).stats -/
+
+/-- every column of `Boxplot(df).stats` is `boxplot_stats` of that data column alone, in the order of the columns -/
+theorem boxStatsCols_column_alone (cols : List (List (Option α))) (b w : α)
+    (out : List (Nat × Option (BoxVals α))) (h : boxStatsCols cols b w = .ok out)
+    (hrows : ¬ cols.all List.isEmpty = true) :
+    out.length = cols.length ∧ ∀ (i : Nat) c, cols[i]? = some c → ∃ st, out[i]? = some st ∧ boxStats c b w = .ok st := by
+  unfold boxStatsCols at h
+  split at h
+  · cases h
+  · rw [if_neg hrows] at h
+    exact statsOfColumns_spec b w cols out h
+
+/-- a frame without rows has no statistics -/
+theorem boxStatsCols_no_rows (cols : List (List (Option α))) (b w : α) (hb : 40 ≤ b) (hbw : b < w)
+    (h : cols.all List.isEmpty = true) : boxStatsCols cols b w = .ok [] := by
+  unfold boxStatsCols
+  rw [(boxplotCheck_iff b w).mpr ⟨hb, hbw⟩]
+  simp only [h, if_true]
+
+/-- coverages `40 ≤ box < whiskers ≤ 100`: the frame is accepted whatever its columns hold -/
+theorem boxStatsCols_accepts (cols : List (List (Option α))) (b w : α) (hb : 40 ≤ b) (hbw : b < w) (hw : w ≤ 100) :
+    ∃ out, boxStatsCols cols b w = .ok out := by
+  unfold boxStatsCols
+  rw [(boxplotCheck_iff b w).mpr ⟨hb, hbw⟩]
+  by_cases h : cols.all List.isEmpty = true
+  · exact ⟨[], by simp only [h, if_true]⟩
+  · simp only [h]
+    exact statsOfColumns_total b w cols fun c _ => boxStats_total c b w (by linarith) hbw.le hw
+
+/-- box coverage below 40, or whiskers coverage not above it: rejected before anything is computed -/
+theorem boxStatsCols_rejects_coverage (cols : List (List (Option α))) (b w : α) (h : b < 40 ∨ w ≤ b) :
+    boxStatsCols cols b w = .error .boxCoverage ∨ boxStatsCols cols b w = .error .whiskersCoverage := by
+  unfold boxStatsCols boxplotCheck
+  simp only [Nat.cast_ofNat]
+  by_cases h1 : b < 40
+  · left; simp [h1]
+  · right
+    have h2 : w ≤ b := h.resolve_left h1
+    simp [h1, h2]
+
+example : (boxStatsCols [[some (1 : Rat), some 2, some 3, some 4, none], [none, none, some 1, none, none]] 50 90).toOption.map
+      (fun l => l.map fun g => (g.1, g.2.map fun v => [v.w1, v.med, v.w2]))
+    = some [(4, some [23 / 20, 5 / 2, 77 / 20]), (1, none)] := by decide +kernel
+
+end floor7
+
+/-! ### the life of a Boxplot object: any sequence of public calls, accepted or not -/
+
+/-- the statistics are those computed at construction, whatever is called afterwards and whether or not it raised -/
+theorem boxRun_stats_unchanged {σ : Type} (s : BoxObj σ) (ops : List BoxOp) :
+    (boxRun s ops).1.stats = s.stats ∧ (boxRun s ops).1.strNames = s.strNames ∧ (boxRun s ops).2.length = ops.length := by
+  induction ops generalizing s with
+  | nil => simp [boxRun]
+  | cons op ops ih =>
+    obtain ⟨h1, h2, h3⟩ := ih (boxStep s op).1
+    obtain ⟨e1, e2, _, _⟩ := boxStep_state s op
+    simp [boxRun, h1, h2, h3, e1, e2]
+
+/-- which calls raise: a `draw` out of which an exception escapes, `show_count` before any `draw` or with the count text
+hidden, `set_ylim` before any `draw`, `set_color` before any `draw` or on stored labels that are not strings; nothing else -/
+theorem boxStep_rejected_iff {σ : Type} (s : BoxObj σ) (op : BoxOp) :
+    (boxStep s op).2 = false ↔
+      (∃ st, op = .draw false st) ∨ (op = .showCount ∧ ¬ (s.drawn = true ∧ s.countText = true)) ∨
+      (op = .setYlim ∧ s.drawn = false) ∨
+      (op = .setColor ∧ ¬ (s.drawn = true ∧ (s.elems = false ∨ s.strNames = true))) := by
+  cases op <;> simp [boxStep]
+
+/-- a call that raises leaves the object as it was - except a failing `draw`, after which the object counts as drawn
+(its statistics are untouched in every case, `boxRun_stats_unchanged`) -/
+theorem boxStep_rejected_state {σ : Type} (s : BoxObj σ) (op : BoxOp) (h : (boxStep s op).2 = false) :
+    (boxStep s op).1 = s ∨ ∃ st, op = .draw false st ∧ (boxStep s op).1 = { s with drawn := true, elems := st } := by
+  cases op <;> simp_all [boxStep]
+
+/-- once `draw` was called (successfully or not), the object stays drawn: `set_ylim` is accepted from then on -/
+theorem boxRun_drawn_persists {σ : Type} (s : BoxObj σ) (ops : List BoxOp)
+    (h : s.drawn = true ∨ ∃ ok st, BoxOp.draw ok st ∈ ops) :
+    (boxRun s ops).1.drawn = true ∧ (boxStep (boxRun s ops).1 .setYlim).2 = true := by
+  have key : ∀ (ops : List BoxOp) (s : BoxObj σ), (s.drawn = true ∨ ∃ ok st, BoxOp.draw ok st ∈ ops) →
+      (boxRun s ops).1.drawn = true := by
+    intro ops
+    induction ops with
+    | nil =>
+      intro s h
+      rcases h with h | ⟨ok, st, h⟩
+      · simpa [boxRun] using h
+      · cases h
+    | cons op ops ih =>
+      intro s h
+      obtain ⟨_, _, e3, e4⟩ := boxStep_state s op
+      simp only [boxRun]
+      apply ih
+      rcases h with h | ⟨ok, st, h⟩
+      · exact Or.inl (e3 h)
+      · rcases List.mem_cons.mp h with rfl | h
+        · exact Or.inl (e4 ok st rfl)
+        · exact Or.inr ⟨ok, st, h⟩
+  have hd := key ops s h
+  exact ⟨hd, by simp [boxStep, hd]⟩
+
+example : (boxRun ({ stats := 7, drawn := false, elems := false, countText := true, strNames := false } : BoxObj Nat)
+    [.showCount, .draw false false, .showCount, .setColor, .draw true true, .setColor, .hideCount, .showCount]).2
+    = [false, false, true, true, true, false, true, false] := by
+  decide
+
+/-! ### Violin: number of abscissae -/
+
+/-- the default `npoints_kde` is the number of rows clipped to `[100, 500]`; a given value is taken as it is -/
+theorem violinNpts_range (nrows : Nat) (k : Nat) :
+    100 ≤ violinNpts none nrows ∧ violinNpts none nrows ≤ 500 ∧
+    (100 ≤ nrows → nrows ≤ 500 → violinNpts none nrows = nrows) ∧ violinNpts (some k) nrows = k := by
+  refine ⟨?_, ?_, ?_, ?_⟩ <;> simp only [violinNpts] <;> omega
+
+example : violinNpts none 30 = 100 ∧ violinNpts none 333 = 333 ∧ violinNpts none 9999 = 500 ∧ violinNpts (some 11) 30 = 11 := by decide
 
 end HydroVerif.C20
